@@ -58,6 +58,9 @@ structure Th where
 
 structure Mutex where
   owner : Option Nat := none
+  /-- `mutex(retries, contending = true)`: unlock frees the mutex and only wakes the head waiter,
+      which competes for it again, instead of handing ownership over -/
+  contending : Bool := false
   deriving Repr, Inhabited
 
 structure RW where
@@ -121,7 +124,7 @@ inductive Ev where
   | semResume (s demand t : Nat)
   | semPass (s cnt : Nat)
   | semInit (s count : Nat) (inorder : Bool)
-  | mutexInit (m : Nat)
+  | mutexInit (m : Nat) (contending : Bool)
   | rwInit (rw cv mtx : Nat)
   | retRwLock (t rw : Nat) (write : Bool) (r : Int)
   | callRwUnlock (t rw : Nat)
@@ -301,7 +304,7 @@ def unlocker (s : St) (m by_ : Nat) : Nat :=
 def preMutexUnlock (s : St) (m : Nat) (newOwner head : Option Nat) (by_ : Nat) : Option String :=
   if (s.mutex m).owner ≠ some (unlocker s m by_) then some "mutex: unlocked by a thread that is not the owner"
   else if head ≠ (s.queue m).head? then some "mutex: hand-off target is not the head of the queue"
-  else if newOwner ≠ head then some "mutex: new owner is not the head waiter"
+  else if newOwner ≠ (if (s.mutex m).contending then none else head) then some "mutex: new owner is not the head waiter (nobody, for a contending mutex)"
   else none
 def effMutexUnlock (s : St) (m : Nat) (newOwner head : Option Nat) : St :=
   { s with mutex := upd s.mutex m { (s.mutex m) with owner := newOwner },
@@ -337,7 +340,8 @@ def preCallUnlock (s : St) (t m : Nat) : Option String :=
 -- semaphore
 def effSemInit (s : St) (sm c : Nat) (inorder : Bool) : St :=
   { s with sem := upd s.sem sm { count := c, initial := c }, semIds := s.semIds ++ [(sm, inorder)] }
-def effMutexInit (s : St) (m : Nat) : St := { s with mutexIds := s.mutexIds ++ [m] }
+def effMutexInit (s : St) (m : Nat) (contending : Bool) : St :=
+  { s with mutexIds := s.mutexIds ++ [m], mutex := upd s.mutex m { (s.mutex m) with contending := contending } }
 def preSemAdd (s : St) (sm n cnt : Nat) : Option String :=
   if cnt ≠ (s.sem sm).count + n then some "semaphore: count after signal differs from the model" else none
 def effSemAdd (s : St) (sm n cnt : Nat) : St :=
@@ -474,7 +478,7 @@ def pre (s : St) (e : Ev) : Option String :=
   | .retTryLock t m r => preRetTryLock s t m r
   | .callUnlock t m => preCallUnlock s t m
   | .semInit _ _ _ => none
-  | .mutexInit _ => none
+  | .mutexInit m _ => if s.queue m ≠ [] then some "mutex registered while threads already wait on it" else none
   | .rwInit _ _ _ => none
   | .retRwLock t rw w r => preRetRwLock s t rw w r
   | .callRwUnlock t rw => preCallRwUnlock s t rw
@@ -511,7 +515,7 @@ def eff (s : St) (e : Ev) : St :=
   | .retTryLock t _ _ => effRet s t
   | .callUnlock _ _ => s
   | .semInit sm c io => effSemInit s sm c io
-  | .mutexInit m => effMutexInit s m
+  | .mutexInit m c => effMutexInit s m c
   | .rwInit rw cv mtx => effRwInit s rw cv mtx
   | .retRwLock t rw w r => effRetRwLock s t rw w r
   | .callRwUnlock t rw => effCallRwUnlock s t rw
